@@ -1,4 +1,126 @@
+/-
+  Props/C02.lean — a call only ever receives the reply to its own request: the multiplexed hop.
+
+  The assembled Thrift / ThriftMux stacks are judged by the monitor `E2E.comp 2` (acceptance,
+  harness/props/c02.py).  The theorems here are about the multiplexed transport itself, on the
+  model of Model/Mux.lean that is compared step by step with the real `SocketTransportSink`
+  (component `tagpool`): replies are routed by tag through `_tag_map`, and the tag map entry of
+  a tag is the request whose frame the peer received under that tag.
+
+  No assumption is made on the peer: `ops` contains arbitrary `process mtype tag` steps — replies
+  in any order, repeated, on unknown, reserved or not yet transmitted tags.  The clause speaks
+  about a delivery only when a written, unanswered request frame with that tag exists.
+-/
 import ScalesModel.Adapter.E2E
-namespace Scales.E2E
-theorem C02_placeholder : True := trivial
-end Scales.E2E
+import ScalesModel.Proofs.TagPoolLemmas
+namespace Scales.TagPool
+
+/-- **Specification level.**  The executable `spec` (the C11 clauses and the `own-reply` clause)
+    holds of every history of the model. -/
+theorem C02_mux_model_satisfies_spec (cfg : Cfg) (ops : List Op) (hc : cfgWF cfg = true)
+    (ho : opsOk cfg St.init ops = true) : spec cfg (comp.modelTrace cfg ops) = .ok := by
+  simp only [cfgWF, decide_eq_true_eq] at hc
+  exact spec_trace cfg hc ops {} St.init 0 (Inv_init cfg hc) ho
+
+/-- **Step level.**  `_ProcessReply` hands a frame to a request exactly when the frame is not
+    the ping answer, its tag is not 0 and `_tag_map` holds that request under the frame's tag;
+    at most one request gets it. -/
+theorem C02_mux_delivery_via_tagmap (s : St) (mt : Int) (t rid : Nat) :
+    (rid ∈ (stepProcess s mt t).2.delivered ↔
+      (¬(t = 1 ∧ mt = -65) ∧ t ≠ 0 ∧ tmLookup t s.tagmap = some rid)) ∧
+    (stepProcess s mt t).2.delivered.length ≤ 1 := by
+  unfold stepProcess
+  by_cases hp : t = 1 ∧ mt = -65
+  · simp [hp]
+  · rw [if_neg hp]
+    by_cases h0 : t ≠ 0
+    · rw [if_pos h0]
+      cases hl : tmLookup t s.tagmap with
+      | none => rw [releaseTag_none hl]; simp [hp]
+      | some r =>
+        rw [releaseTag_some hl]
+        simp only [List.mem_singleton, List.length_cons, List.length_nil, Nat.zero_add, Nat.le_refl, and_true]
+        constructor
+        · intro e; subst e; exact ⟨hp, h0, rfl⟩
+        · intro h; injection h.2.2 with h'; exact h'.symm
+    · rw [if_neg h0]; simp [hp, h0]
+
+/-- no other step of the transport delivers anything to a request -/
+theorem C02_mux_only_process_delivers (max : Nat) (s : St) (op : Op) (h : ∀ mt t, op ≠ .process mt t) :
+    (stepOp max s op).2.delivered = [] := by
+  cases op with
+  | process mt t => exact absurd rfl (h mt t)
+  | ping => rfl
+  | reopen => rfl
+  | req e popped =>
+    simp only [stepOp, stepReq]
+    split <;> rfl
+  | fire rid =>
+    simp only [stepOp, stepFire]
+    split
+    · split <;> rfl
+    · rfl
+  | notify rid =>
+    simp only [stepOp, stepNotify]
+    split
+    · split
+      · split <;> rfl
+      · rfl
+    · rfl
+  | send =>
+    simp only [stepOp]
+    unfold stepSend
+    split
+    · rfl
+    · rfl
+    · rfl
+    · simp only
+      split
+      · rfl
+      · split
+        · rfl
+        · split
+          · split <;> rfl
+          · rfl
+          · rfl
+
+/-- **History level.**  For every pool size ≥ 2 and every legal sequence of transport steps:
+    whenever a step processing a peer frame on tag `t` delivers to request `rid`, and a request
+    frame carrying `t` was written on this connection and has not been answered since, that
+    frame is the frame of request `rid` — the reply goes to the request the peer received
+    under that tag, never to another call. -/
+theorem C02_mux_own_reply (cfg : Cfg) (ops : List Op) (hc : cfgWF cfg = true)
+    (ho : opsOk cfg St.init ops = true) (h1 h2 : List (Op × Obs)) (mt : Int) (t : Nat) (o : Obs)
+    (htr : comp.modelTrace cfg ops = h1 ++ (.process mt t, o) :: h2)
+    (rid : Nat) (hd : rid ∈ o.delivered) (rid' : Nat) (hw : (t, rid') ∈ unansweredPairs h1) :
+    rid' = rid := by
+  have hs := C02_mux_model_satisfies_spec cfg ops hc ho
+  rw [htr] at hs
+  have := specGo_split cfg h1 {} 0 (.process mt t) o h2 hs
+  obtain ⟨_, _, _, _, _, hor⟩ := (specObs_ok_iff cfg _ _ _ o).mp this
+  simp only [ownReplyBad, List.find?_eq_none, List.mem_filter, beq_iff_eq, List.any_eq_true, bne_iff_ne,
+    ne_eq, not_exists, not_and, Decidable.not_not, and_imp] at hor
+  exact (hor (t, rid') hw rfl rid hd).symm
+
+/-- the written, unanswered frames known to the specification are the tag map's entries:
+    `(t, rid)` unanswered ⇒ `_tag_map[t]` is request `rid` (so `C02_mux_delivery_via_tagmap`
+    delivers the next frame on `t` to `rid`) -/
+theorem C02_mux_unanswered_owner_in_tagmap (cfg : Cfg) (ops : List Op) (hc : cfgWF cfg = true)
+    (ho : opsOk cfg St.init ops = true) (t rid : Nat)
+    (hw : (t, rid) ∈ unansweredPairs (comp.modelTrace cfg ops)) :
+    tmLookup t (reach cfg ops).tagmap = some rid := by
+  simp only [cfgWF, decide_eq_true_eq] at hc
+  exact (Inv_trace cfg hc ops {} St.init (Inv_init cfg hc) ho).own (t, rid) hw
+
+/-! a concrete history: three requests written, answered out of order, one answered twice, one
+    frame on an unknown tag — each delivery reaches the request that owns the tag -/
+example : (comp.modelTrace ⟨2 ^ 24 - 1⟩
+      [.req .noev 0, .req .noev 0, .req .noev 0, .send, .send, .send,
+       .process (-2) 4, .process (-2) 2, .process (-2) 2, .process (-2) 9, .process (-2) 3]).map
+      (fun p => p.2.delivered) = [[], [], [], [], [], [], [2], [0], [], [], [1]] := by decide
+
+example : comp.wf ⟨2 ^ 24 - 1⟩
+      [.req .noev 0, .req .noev 0, .req .noev 0, .send, .send, .send,
+       .process (-2) 4, .process (-2) 2, .process (-2) 2, .process (-2) 9, .process (-2) 3] = true := by decide
+
+end Scales.TagPool
